@@ -1008,9 +1008,9 @@ def r_endian(ctx):
         if nd.kind != 'for':
             continue
         it = dec.term(nd.stmt.iter, nd)
-        src = strip_wrappers(it)
+        src = it
         if is_call(it, 'builtins.enumerate') and it[2]:
-            src = strip_wrappers(it[2][0])
+            src = it[2][0]
         rev = 0
         while True:
             if src[0] == 'sub' and src[2] == ('slice', ('c', None), ('c', None), ('c', -1)):
@@ -1033,7 +1033,7 @@ def r_endian(ctx):
                     muls.append(e)
                 if e.kind == 'def' and call_name(e.term) and call_name(e.term).endswith('.calculus_addition'):
                     adds.append(e)
-        if not muls or not adds:
+        if not adds:
             continue
         found += 1
         line = nd.lineno
